@@ -77,6 +77,8 @@ class V5:
     flags = {}
     reward_components = ()
     terminates = False
+    # parameters the installed v5 implementation does not use at all (compared only at their default value)
+    unused_by_v5 = {}
 
     def obs(self, o, P, D):
         raise NotImplementedError
@@ -274,6 +276,9 @@ class HumanoidStandup(V5):
               "impact_cost_range": "_impact_cost_range", "reset_noise_scale": "_reset_noise_scale"}
     flags = {k: v for k, v in Humanoid.flags.items() if k != "terminate_when_unhealthy"}
     reward_components = ("reward_linup", "reward_quadctrl", "reward_impact")
+    # HumanoidStandup-v5 accepts uph_cost_weight but its _get_rew never applies it (uph_cost = z / timestep); its documentation
+    # does.  lerax applies it, which coincides with v5 at the default weight 1: the comparison is made at that value.
+    unused_by_v5 = {"uph_cost_weight": 1.0}
 
     obs = Humanoid.obs
 
